@@ -281,7 +281,11 @@ impl<'a, 'tcx> Cx<'a, 'tcx> {
                 }
             }
             ty::Ref(_, inner, _) if inner.is_str() => {
-                if let Const::Val(cv, _) = c {
+                let cv = match c {
+                    Const::Val(cv, _) => Some(*cv),
+                    _ => c.eval(tcx, self.tenv, _sp).ok(),
+                };
+                if let Some(cv) = cv {
                     if let Some(bytes) = cv.try_get_slice_bytes_for_diagnostics(tcx) {
                         o.put("str", J::s(String::from_utf8_lossy(bytes).to_string()));
                     }
